@@ -7,7 +7,7 @@ from ..linform import lin, show_lin
 from ..program import AnalysisError
 from ..rules import calls, is_call, is_mcall, mcalls, mentions, mentions_any
 from ..terms import C, Evaluator, G, P, is_t, mk_proj, mk_slice, show, subterms
-from .common import Obs, arms_of, call0, choices_of, cond_has, ctor_fields, is_zero, retval_of, score_of, tuple_n
+from .common import main_ret, Obs, arms_of, call0, choices_of, cond_has, ctor_fields, is_zero, retval_of, score_of, tuple_n
 from .distribution import is_tag
 
 MOD = "combinators/scan.py"
@@ -194,7 +194,7 @@ def analyse(obs: Obs, prog):
         ev = E()
         r = ev.eval_fn(S.methods[meth], S.module, S)
         w = W(S, meth)
-        q = tuple_n(r.ret, 4, f"Scan.{meth}")
+        q = tuple_n(main_ret(obs, r, f"Scan.{meth}", w, {"C05", "C12"} if meth == "edit_update" else {"C07", "C12"}), 4, f"Scan.{meth}")
         sid, sc = skeleton(ev, f"Scan.{meth}")
         ik, ic, iv = slots(sc, f"Scan.{meth}")
         cin, cout = sc.carry_in[1], sc.carry_out[1]
